@@ -44,6 +44,12 @@ func init() {
 	badPairs[[2]string{"-", "-"}] = true
 	badPairs[[2]string{"#", "-"}] = true
 	badPairs[[2]string{"number", "%"}] = true
+	for _, a := range []string{"#", "-", "number", "@"} {
+		badPairs[[2]string{a, "-->"}] = true // "--" starts an identifier
+	}
+	badPairs[[2]string{"|", "|="}] = true
+	badPairs[[2]string{"|", "||"}] = true
+	badPairs[[2]string{"/", "*="}] = true
 	badPairs[[2]string{"ident", "() block"}] = true
 	badPairs[[2]string{"|", "|"}] = true
 	badPairs[[2]string{"/", "*"}] = true
